@@ -28,7 +28,7 @@ DIMS = dict(
     solver=["A", "B"],
     conset=["basic", "offsets", "grids"],
 )
-POS = ["fresh", "after_query", "after_solve", "after_update", "twice"]
+POS = ["fresh", "after_query", "after_solve", "after_update", "after_edit", "twice"]
 
 
 def forbid(a):
@@ -72,7 +72,7 @@ def cases(tier):
     # multi-stage programs (stage alphabet of C12), incl. clones
     for names in (("A", "B"), ("D", "E"), ("C", "G"), ("B", "F", "A"), ("G", "G")):
         for via in ("direct", "clone"):
-            for pos in ("fresh", "after_solve"):
+            for pos in ("fresh", "after_solve", "after_edit"):
                 spec = c12.build(names, [["continuity", 0], ["master_var_par"]], [via] * len(names))
                 out.append(dict(kind="multi", spec=spec, pos=pos, dev=list(names) + [via]))
     return out
@@ -120,6 +120,14 @@ def run_case(case):
                 else: ocp.jacobian()
             if pos in ("after_solve", "after_update"):
                 ocp.solve_limited()
+            if pos == "after_edit":
+                # an invalidating edit after a solve, then save
+                ocp.solve_limited()
+                if d is not None:
+                    c = P.con("x_le")
+                    r.st.subject_to(P.apply_rel(P.CONS["x_le"](P.CA, r.pt, d))); d["cons"].append(c)
+                else:
+                    ocp.solver("ipopt", hist.SOLVER_OPTS["A"])
             if pos == "after_update" and d is not None:
                 if d["pg"] == "scalar":
                     r.st.set_value(r.sym["pg"], -0.8); d["pvals"]["pg"] = -0.8
@@ -178,6 +186,6 @@ def run_case(case):
 
 def describe(tier):
     return dict(
-        rule="program alphabet over %d feature dimensions (methods, integrators, grids incl. localized/free/density, horizon kinds, state shapes, DAE, global/per-interval parameters and variables, scaling, guesses incl. time expressions, solver option sets, constraint sets with offsets and grid options) at <=2 deviations, plus multi-stage programs (direct and cloned) x save position (before any transcription, after a query, after a solve, after post-transcription set_value/set_initial, save-load twice): what the solver receives from the loaded OCP (rows, objective, start, parameters, solver settings) = from the original after saving = from a fresh OCP; accessor lists and shapes equal and in the same order; updates through the loaded OCP's accessor symbols have the same effect" % len(DIMS),
-        bound="k<=2 deviations x %s positions" % ("5" if tier == "thorough" else "2-5"),
+        rule="program alphabet over %d feature dimensions (methods, integrators, grids incl. localized/free/density, horizon kinds, state shapes, DAE, global/per-interval parameters and variables, scaling, guesses incl. time expressions, solver option sets, constraint sets with offsets and grid options) at <=2 deviations, plus multi-stage programs (direct and cloned) x save position (before any transcription, after a query, after a solve, after post-transcription set_value/set_initial, after a solve followed by an invalidating edit, save-load twice): what the solver receives from the loaded OCP (rows, objective, start, parameters, solver settings) = from the original after saving = from a fresh OCP; accessor lists and shapes equal and in the same order; updates through the loaded OCP's accessor symbols have the same effect" % len(DIMS),
+        bound="k<=2 deviations x %s positions" % ("6" if tier == "thorough" else "2-6"),
         assumptions=["solver spy is 'what the solver receives'", "files are written to a per-case temp dir that is removed"])
